@@ -71,6 +71,10 @@ func defaultReturnHandler() ReturnHandler {
 		}
 
 		if isByteSlice(respVal) {
+			// An empty but non-nil slice writes nothing, same as "" and nil.
+			if respVal.Len() == 0 {
+				return
+			}
 			_, _ = w.Write(respVal.Bytes())
 		} else {
 			_, _ = w.Write([]byte(respVal.String()))
